@@ -183,6 +183,72 @@ def run_odd_values(spec, res):
                     break
 
 
+def run_cycle_passes(spec, res):
+    """cycle() repeats the PIPELINE, not the objects of its first pass: a
+    consumer (or a stage above) that works on the delivered examples in place
+    sees pristine examples in every pass."""
+    import copy
+    import itertools
+    from ..common import import_lazy_dataset, exc_sig
+    ld = import_lazy_dataset()
+
+    def mk(i):
+        return {'id': i, 'v': 100, 'l': [i]}
+
+    def inplace(e):
+        e['v'] += 100
+        e['l'].append('x')
+        return e
+    tails = {
+        'cycle': lambda d: d.cycle(),
+        'map.cycle': lambda d: d.map(lambda e: e).cycle(),
+        'cycle.map-inplace': lambda d: d.cycle().map(inplace),
+        'cycle.batch2': lambda d: d.cycle().batch(2),
+        'cycle.prefetch1': lambda d: d.cycle().prefetch(1, 2),
+        'items.cycle': lambda d: d.items().cycle(),
+        'slice.cycle': lambda d: d[::-1].cycle(),
+        'cache.cycle': lambda d: d.cache().cycle(),
+    }
+    for n in (1, 2, 5):
+        for backing, w in (('list', 'pickle'), ('dict', 'pickle'), ('dict', 'copy'),
+                           ('list', 'wu')):
+            for tn, tail in tails.items():
+                if tn == 'items.cycle' and backing == 'list':
+                    continue
+                case = {'cycle_passes': True, 'n': n, 'backing': backing,
+                        'immutable_warranty': w, 'stages': tn}
+                res.case(('cycle', n, backing, w, tn), True)
+                src = [mk(i) for i in range(n)]
+                if backing == 'dict':
+                    src = {f'k{i}': e for i, e in enumerate(src)}
+                try:
+                    d = ld.from_list(src, immutable_warranty=w) if w == 'wu' else \
+                        ld.new(src, immutable_warranty=w)
+                    got = []
+                    for x in itertools.islice(tail(d), 3 * n + 1):
+                        got.append(copy.deepcopy(x))
+                        # the consumer works on what it was handed
+                        for e in (x if isinstance(x, list) else [x]):
+                            e = e[1] if isinstance(e, tuple) else e
+                            e['v'] = -1
+                            e['l'].clear()
+                except BaseException as e:
+                    res.violation('refused-supported-composition', case, exc_sig(e),
+                                  sig={'last_op': 'cycle', 'passes': True})
+                    continue
+                res.count('cycle_passes_with_in_place_consumers_compared')
+                flat = [e for x in got for e in (x if isinstance(x, list) else [x])]
+                flat = [e[1] if isinstance(e, tuple) else e for e in flat]
+                want_v = 200 if tn == 'cycle.map-inplace' else 100
+                bad = [e for e in flat
+                       if e['v'] != want_v or e['l'] != ([e['id'], 'x'] if want_v == 200
+                                                         else [e['id']])]
+                if bad or len(flat) < 3 * n:
+                    res.violation('second-iteration-differs', case,
+                                  {'delivered': flat[:3 * n + 1]},
+                                  sig={'last_op': 'cycle', 'passes': True})
+
+
 def nontrivial(prog, status, m, o):
     return status == 'ok' and len(prog['ops']) >= 1 and m.n >= 1
 
@@ -191,6 +257,8 @@ def run_shard(spec, res):
     if spec['what'] == 'slow':
         return run_slow(spec, res)
     if spec['what'] == 'odd':
+        if spec['rem'] == 0:
+            run_cycle_passes(spec, res)
         return run_odd_values(spec, res)
     if spec['what'] == 'schedpipe':
         from . import c04
@@ -209,6 +277,8 @@ def finalize(res, tier):
 def replay(case, res):
     from ..common import import_lazy_dataset
     ld = import_lazy_dataset()
+    if case.get('cycle_passes'):
+        return run_cycle_passes({}, res)
     if case.get('odd_values'):
         return run_odd_values({'mod': 1, 'rem': 0}, res)
     prog = fix_prog(case['prog'])
